@@ -88,6 +88,11 @@ impl SymbolTable {
         self.contexts.last_mut().unwrap()
     }
 
+    /// True if the current context is the global one (i.e. we are not inside any function)
+    pub fn in_global_context(&self) -> bool {
+        self.contexts.len() == 1
+    }
+
     /// Create a new context to define symbols in.
     /// This will always be a local context (as there is only one global context).
     pub fn new_context(&mut self) {
